@@ -156,6 +156,85 @@ theorem Dict_get_remove (d : Dict) (k k' : Bytes) (hn : d.keys.Nodup) :
           · subst hl'; simp [Dict.get, e, hgb]
           · cases hbk : Dict.get b' k' <;> simp [Dict.get, e, hl', hbk]
 
+/-- the three shapes of `swap_remove` -/
+theorem Dict_remove_cases (d : Dict) (k : Bytes) :
+    d.remove k = d ∨ (∃ a v, d = a ++ [(k, v)] ∧ d.remove k = a) ∨
+    (∃ a v b last, d = a ++ (k, v) :: (b ++ [last]) ∧ d.remove k = a ++ last :: b) := by
+  unfold Dict.remove
+  cases hi : Dict.idxOf d k with
+  | none => exact Or.inl rfl
+  | some i =>
+    obtain ⟨a, v, b, hd, hl⟩ := Dict_idxOf_split d k i hi
+    subst hd
+    rcases List.eq_nil_or_concat b with hb | ⟨b', last, hb⟩
+    · subst hb
+      refine Or.inr (Or.inl ⟨a, v, rfl, ?_⟩)
+      simp only [List.getLast?_concat, List.dropLast_concat, hl, if_true]
+    · rw [List.concat_eq_append] at hb
+      subst hb
+      refine Or.inr (Or.inr ⟨a, v, b', last, rfl, ?_⟩)
+      have e1 : a ++ (k, v) :: (b' ++ [last]) = (a ++ (k, v) :: b') ++ [last] := by simp
+      rw [e1]
+      simp only [List.getLast?_concat, List.dropLast_concat]
+      subst hl
+      have hne : ¬ a.length = (a ++ (k, v) :: b').length := by simp
+      rw [if_neg hne, set_mid]
+
+theorem Dict_mem_remove (d : Dict) (k : Bytes) (p : Bytes × Obj) (h : p ∈ d.remove k) : p ∈ d := by
+  rcases Dict_remove_cases d k with h1 | ⟨a, v, hd, h1⟩ | ⟨a, v, b, last, hd, h1⟩
+  · rw [h1] at h; exact h
+  · rw [h1] at h; rw [hd]; simp [h]
+  · rw [h1] at h; rw [hd]
+    simp only [List.mem_append, List.mem_cons] at h ⊢
+    rcases h with h | h | h
+    · exact Or.inl h
+    · exact Or.inr (Or.inr (Or.inr (Or.inl h)))
+    · exact Or.inr (Or.inr (Or.inl h))
+
+theorem Dict_nodup_remove (d : Dict) (k : Bytes) (hn : d.keys.Nodup) : (d.remove k).keys.Nodup := by
+  rcases Dict_remove_cases d k with h1 | ⟨a, v, hd, h1⟩ | ⟨a, v, b, last, hd, h1⟩
+  · rw [h1]; exact hn
+  · rw [h1]; rw [hd] at hn
+    simp only [Dict.keys, List.map_append, List.map_cons, List.map_nil] at hn ⊢
+    exact (List.nodup_append.mp hn).1
+  · rw [h1]; rw [hd] at hn
+    simp only [Dict.keys, List.map_append, List.map_cons, List.map_nil] at hn ⊢
+    rw [List.nodup_append] at hn ⊢
+    obtain ⟨ha, hb, hab⟩ := hn
+    rw [List.nodup_cons] at hb
+    obtain ⟨_, hb⟩ := hb
+    rw [List.nodup_append] at hb
+    obtain ⟨hb1, _, hb3⟩ := hb
+    refine ⟨ha, ?_, ?_⟩
+    · rw [List.nodup_cons]
+      refine ⟨?_, hb1⟩
+      intro hm
+      exact hb3 last.1 hm last.1 (by simp) rfl
+    · intro x hx y hy
+      apply hab x hx y
+      simp only [List.mem_cons, List.mem_append] at hy ⊢
+      rcases hy with hy | hy
+      · exact Or.inr (Or.inr (Or.inl hy))
+      · exact Or.inr (Or.inl hy)
+
+theorem Dict_mem_set (d : Dict) (k : Bytes) (v : Obj) (p : Bytes × Obj) (h : p ∈ d.set k v) :
+    p ∈ d ∨ p = (k, v) := by
+  induction d with
+  | nil => simp [Dict.set] at h; exact Or.inr h
+  | cons q rest ih =>
+    obtain ⟨k', v'⟩ := q
+    by_cases hk : k' = k
+    · simp only [Dict.set, hk, if_true, List.mem_cons] at h
+      rcases h with h | h
+      · exact Or.inr h
+      · exact Or.inl (by simp [h])
+    · simp only [Dict.set, hk, if_false, List.mem_cons] at h
+      rcases h with h | h
+      · exact Or.inl (by simp [h])
+      · rcases ih h with h' | h'
+        · exact Or.inl (by simp [h'])
+        · exact Or.inr h'
+
 theorem Dict_has_eq (d : Dict) (k : Bytes) : d.has k = (d.get k).isSome := rfl
 
 end Lopdf.FileRT
